@@ -1115,7 +1115,11 @@ class Variable(CanBehaveLikeAVariable[T]):
         values = {self._id_: hv}
         for d in kwargs.values():
             values.update(d.bindings)
-        return OperationResult(values, is_condition and not bool(instance), self)
+        is_false = is_condition and not bool(instance)
+        if is_condition:
+            # the conclusion selectors read the truth of their operands off the node
+            self._is_false_ = is_false
+        return OperationResult(values, is_false, self)
 
     @property
     def _name_(self):
